@@ -139,6 +139,8 @@ pub fn hash_stream<R: Read>(reader: &mut R) -> Result<RawFuzzyHash, GeneratorOrI
 /// If the file size could change while generating a fuzzy hash,
 /// use [`hash_stream()`] instead.
 pub fn hash_file<P: AsRef<Path>>(path: P) -> Result<RawFuzzyHash, GeneratorOrIOError> {
+    #[cfg(a4lg_ffuzzy_verif)]
+    use crate::internals::verif_hooks::File;
     let mut file = File::open(path)?;
     let mut generator = Generator::new();
     generator.set_fixed_input_size(file.metadata()?.len())?; // grcov-excl-br-line:IO
